@@ -35,7 +35,7 @@ ASSUMPTIONS = [
     "a substituted text that itself contains braces is re-resolved by the library: covered by the recorded finding template-reresolves-substituted-braces, otherwise not generated",
 ]
 FLOORS = {"values_compared": (6000, 100000), "missing_key_failures": (800, 15000), "transitive_substitutions": (1500, 30000),
-          "outcome_changing_present_paths": (4000, 80000), "outcome_changing_absent_paths": (800, 15000), "escaped_brace_cases": (300, 5000)}
+          "outcome_changing_present_paths": (4000, 80000), "outcome_changing_absent_paths": (800, 15000), "escaped_brace_cases": (300, 5000), "hostile_key_steps": (8000, 150000), "hostile_fail_then_complete": (300, 6000)}
 SHARDS_QUICK = 4
 
 PIECES = ["lit", "-", "{A}", "{B}", "{C}", "{S.X}", "{S.Y}", "{T.X}", "{L.0}", "{L.1}", "{D}", "{:p:}", "{:q:}", "\\{esc\\}", "x\\{y\\}z"]
@@ -284,6 +284,35 @@ def case(ctx, program, o, tag="random"):
         ctx.sample({"program": program, "options": o, "keys": sorted(keys), "outcome": short(got, 100)}, limit=3)
 
 
+def hostile_keys(ctx, program, base, r, case):
+    """keys() / explain() / evaluate() of one long-lived subject over a hostile history (lvf.hostile: the same
+    dictionary object edited in place, a failing call followed by the completed same object, equal-but-differently
+    typed dictionaries) must equal those of a fresh subject on a private copy - no state may survive a call."""
+    from .. import hostile
+
+    G = build(program)
+    trail = []
+    for label, obj in hostile.steps(r, base, ["A", "B", "C", "D", "E", "S.X", "S.Y", "T.X", "Q"]):
+        snap = copy.deepcopy(obj)
+        if not acyclic(snap):
+            return
+        trail.append([label, snap])
+        fresh = build(program)
+        for op in ("keys", "explain", "evaluate", "keys"):
+            with labrea.cache.disabled():
+                got = observe(getattr(G.root, op), obj)  # the caller's own object, no copy
+                exp = observe(getattr(fresh.root, op), copy.deepcopy(snap))
+            ctx.evaluations += 2
+            ctx.count("hostile_key_steps")
+            if got != exp:
+                ctx.violation("state-survives-a-call", f"step {len(trail)} ({label}): {op}() of the long-lived subject gives {short(got)}, a fresh subject on a copy of the same dictionary {short(exp)}",
+                              {"family": "hostile-keys", "program": program, "base": base, "case": case, "shard": ctx.shard, "shards": ctx.shards, "trail": trail[-3:]})
+                return
+        if label.startswith("same-object restore"):
+            ctx.count("hostile_fail_then_complete")
+    ctx.nontrivial(spec_hash(["hostile-keys", program, base, case]))
+
+
 def known_finding_reproducer(ctx):
     """Recorded finding: a substituted text that itself contains braces is resolved again."""
     from labrea import Option, Template
@@ -309,6 +338,8 @@ def run(ctx):
         r = case_rng(ctx, i)
         program = gen_subject(r)
         texts = program_texts(program)
+        if i % 3 == 0:
+            hostile_keys(ctx, program, gen_options(r), case_rng(ctx, ("hostile", i)), i)
         for _ in range(3):
             o = gen_options(r)
             if brace_hazard(o, texts):
@@ -319,7 +350,10 @@ def run(ctx):
 
 def replay(ctx, rep):
     w = rep["witness"]
-    if "program" in w:
+    if w.get("family") == "hostile-keys":
+        ctx.shard, ctx.shards = w.get("shard", 0), w.get("shards", 1)
+        hostile_keys(ctx, w["program"], w["base"], case_rng(ctx, ("hostile", w["case"])), w["case"])
+    elif "program" in w:
         case(ctx, w["program"], w["options"], "replay")
     else:
         known_finding_reproducer(ctx)
